@@ -49,6 +49,27 @@ MaximalOf(S, strict) ==
   SelectSeq(S.edges, LAMBDA e : \A f \in EdgeSet(S) \ {e} :
       ~(S.e2n[e] \subseteq S.e2n[f] /\ (strict \/ S.e2n[e] # S.e2n[f])))
 
+(* ---- global properties (xgi.algorithms.properties) and aggregates ------------ *)
+EdgeSizes(S) == {SizeOf(S, e) : e \in EdgeSet(S)}
+UniqueEdgeSizes(S) == SortSeqOf(EdgeSizes(S))
+MaxEdgeOrder(S) == IF S.edges # <<>> THEN MaxOf(EdgeSizes(S)) - 1 ELSE IF S.nodes # <<>> THEN 0 ELSE None
+NumEdgesOrder(S, d) == IF d = None THEN Len(S.edges) ELSE Cardinality({e \in EdgeSet(S) : SizeOf(S, e) = d + 1})
+\* order shared by all edges, singleton edges disregarded; -1: not uniform
+IsUniform(S) == LET sz == EdgeSizes(S) \ {1} IN IF Cardinality(sz) = 1 THEN MaxOf(sz) - 1 ELSE -1
+DegreeCounts(S) == LET mx == MaxOf({Degree(S, n) : n \in NodeSet(S)})
+                   IN [k \in 1..(mx + 1) |-> Cardinality({n \in NodeSet(S) : Degree(S, n) = k - 1})]
+\* first position holding the largest / smallest value (python max / min over a dict)
+ArgBest(ids, vals, better(_, _)) ==
+  ids[CHOOSE k \in DOMAIN ids : (\A m \in DOMAIN ids : ~better(vals[m], vals[k])) /\
+                                (\A m \in 1..(k - 1) : better(vals[k], vals[m]))]
+\* stable sort of the ids by value
+RECURSIVE StableSort(_, _)
+StableSort(ids, vals) ==
+  IF ids = <<>> THEN <<>>
+  ELSE LET k == CHOOSE k \in DOMAIN ids : \A m \in DOMAIN ids : vals[k] < vals[m] \/ (vals[k] = vals[m] /\ k <= m)
+           rest == [q \in 1..(Len(ids) - 1) |-> IF q < k THEN q ELSE q + 1]
+       IN <<ids[k]>> \o StableSort([q \in DOMAIN rest |-> ids[rest[q]]], [q \in DOMAIN rest |-> vals[rest[q]]])
+
 (* ---- connectivity ---------------------------------------------------------- *)
 IsConnected(S) == Cardinality(Components(S)) = 1
 RECURSIVE Dist(_, _, _, _)
